@@ -6,6 +6,7 @@ import Mathlib.Data.Rat.Floor
 import Mathlib.Tactic.Ring
 import Mathlib.Tactic.Linarith
 import Mathlib.Tactic.FieldSimp
+import Mathlib.Tactic.LinearCombination
 import Tetl.C12.Model
 import Tetl.C12.Spec
 import TetlProofs.C14.Props
@@ -322,5 +323,195 @@ theorem cast_val (p q : Ratio) (hp : PerOk p) (hq : PerOk q) (c : Int) :
   obtain ⟨_, hD, _⟩ := cf_facts p q hp hq
   rw [tdiv_trunc _ _ hD, scaled_rat p q hp hq]
   rfl
+
+/-! ## the common type -/
+
+/-- the period of `common_type_t<duration<_, p>, duration<_, q>>`: `ratio<gcd(num), lcm(den)>::type` -/
+def cdPer (p q : Ratio) : Ratio :=
+  let G : Int := ((Int.gcd p.num q.num : Nat) : Int)
+  let L : Int := ((Int.lcm p.den q.den : Nat) : Int)
+  ⟨G / ((Int.gcd G L : Nat) : Int), L / ((Int.gcd G L : Nat) : Int)⟩
+
+def cdTy (a b : DurTy) : DurTy := ⟨ITy.common a.rep b.rep, cdPer a.per b.per⟩
+
+/-- `common_type` and the two converting constructors into it are well-formed constant expressions -/
+def CommonOk (p q : Ratio) : Prop :=
+  ((Int.lcm p.den q.den : Nat) : Int) ≤ imax.max ∧ DivOk p (cdPer p q) ∧ DivOk q (cdPer p q)
+instance (p q : Ratio) : Decidable (CommonOk p q) := by unfold CommonOk; infer_instance
+
+theorem cdPer_comm (p q : Ratio) : cdPer p q = cdPer q p := by
+  unfold cdPer; rw [Int.gcd_comm p.num q.num, Int.lcm_comm p.den q.den]
+
+theorem lcm_pos_int (a b : Int) (ha : 0 < a) (hb : 0 < b) : 0 < ((Int.lcm a b : Nat) : Int) := by
+  have : 0 < Int.lcm a b := Int.lcm_pos (by omega) (by omega)
+  exact_mod_cast this
+
+/-- the common period and the multipliers into it, in factored form:
+    `p.num = h·g·u`, `q.num = h·g·u'`, `lcm = h·l = p.den·v = q.den·v'`, common period `g / l` -/
+theorem cdPer_facts (p q : Ratio) (hp : PerOk p) (hq : PerOk q) (hl : ((Int.lcm p.den q.den : Nat) : Int) ≤ imax.max) :
+    PerOk (cdPer p q) ∧
+    (p.den * (cdPer p q).num ∣ p.num * (cdPer p q).den) ∧ (q.den * (cdPer p q).num ∣ q.num * (cdPer p q).den) := by
+  obtain ⟨p1, p2, p3, p4⟩ := hp
+  obtain ⟨q1, q2, q3, q4⟩ := hq
+  have hG := gcd_pos_int p.num q.num p1
+  have hGle := gcd_le_left_int p.num q.num p1
+  have hL := lcm_pos_int p.den q.den p2 q2
+  have dGp : ((Int.gcd p.num q.num : Nat) : Int) ∣ p.num := Int.gcd_dvd_left _ _
+  have dGq : ((Int.gcd p.num q.num : Nat) : Int) ∣ q.num := Int.gcd_dvd_right _ _
+  have dLp : p.den ∣ ((Int.lcm p.den q.den : Nat) : Int) := Int.dvd_lcm_left _ _
+  have dLq : q.den ∣ ((Int.lcm p.den q.den : Nat) : Int) := Int.dvd_lcm_right _ _
+  unfold cdPer
+  dsimp only
+  generalize ((Int.gcd p.num q.num : Nat) : Int) = G at *
+  generalize ((Int.lcm p.den q.den : Nat) : Int) = L at *
+  have hh := gcd_pos_int G L hG
+  have dhG : ((Int.gcd G L : Nat) : Int) ∣ G := Int.gcd_dvd_left _ _
+  have dhL : ((Int.gcd G L : Nat) : Int) ∣ L := Int.gcd_dvd_right _ _
+  generalize ((Int.gcd G L : Nat) : Int) = h at *
+  obtain ⟨g, rfl⟩ := dhG
+  obtain ⟨l, rfl⟩ := dhL
+  rw [Int.mul_ediv_cancel_left _ (by omega), Int.mul_ediv_cancel_left _ (by omega)]
+  have hg : 0 < g := by
+    rcases Int.lt_trichotomy g 0 with hneg | hz | hpos
+    · have := Int.mul_neg_of_pos_of_neg hh hneg; omega
+    · subst hz; omega
+    · exact hpos
+  have hl' : 0 < l := by
+    rcases Int.lt_trichotomy l 0 with hneg | hz | hpos
+    · have := Int.mul_neg_of_pos_of_neg hh hneg; omega
+    · subst hz; omega
+    · exact hpos
+  have hgle : g ≤ h * g := by
+    have : 1 * g ≤ h * g := Int.mul_le_mul_of_nonneg_right (by omega) (by omega)
+    omega
+  have hlle : l ≤ h * l := by
+    have : 1 * l ≤ h * l := Int.mul_le_mul_of_nonneg_right (by omega) (by omega)
+    omega
+  refine ⟨⟨hg, hl', by show g ≤ _; omega, by show l ≤ _; omega⟩, ?_, ?_⟩
+  · obtain ⟨u, hu⟩ := dGp
+    obtain ⟨v, hv⟩ := dLp
+    exact ⟨u * v, by linear_combination (l) * hu + (g * u) * hv⟩
+  · obtain ⟨u, hu⟩ := dGq
+    obtain ⟨v, hv⟩ := dLq
+    exact ⟨u * v, by linear_combination (l) * hu + (g * u) * hv⟩
+
+theorem commonTy_eq (a b : DurTy) (hpa : PerOk a.per) (hpb : PerOk b.per)
+    (hl : ((Int.lcm a.per.den b.per.den : Nat) : Int) ≤ imax.max) :
+    commonTy a b = .ok (cdTy a b) := by
+  obtain ⟨p1, p2, p3, p4⟩ := hpa
+  obtain ⟨q1, q2, q3, q4⟩ := hpb
+  have hG := gcd_pos_int a.per.num b.per.num p1
+  have hGle := gcd_le_left_int a.per.num b.per.num p1
+  have hL := lcm_pos_int a.per.den b.per.den p2 q2
+  unfold commonTy
+  rw [gcd_imax _ _ (by omega) (by omega) p3 q3, lcm_imax _ _ (by omega) (by omega) p4 q4 hl]
+  simp only [bind, Except.bind]
+  rw [mkRatio_pos _ _ hG hL (by omega) hl]
+  rfl
+
+/-- a divisor of the numerator that equals the denominator part: the normalised denominator is 1 -/
+theorem cfD_one_of_dvd (p q : Ratio) (hp : PerOk p) (hq : PerOk q) (hd : p.den * q.num ∣ p.num * q.den) :
+    cfD p q = 1 := by
+  obtain ⟨_, p2, _, _⟩ := hp
+  obtain ⟨q1, _, _, _⟩ := hq
+  have hB : 0 < p.den * q.num := Int.mul_pos p2 q1
+  unfold cfD
+  have : ((Int.gcd (p.num * q.den) (p.den * q.num) : Nat) : Int) = p.den * q.num := by
+    rw [Int.gcd_comm]
+    have := Int.gcd_eq_left_iff_dvd (a := p.den * q.num) (b := p.num * q.den) (by omega)
+    have h2 := this.mpr hd
+    omega
+  rw [this, Int.ediv_self (by omega)]
+
+/-- the integer multiplier that converts ticks of `p` into ticks of the common period of `p` and `q` -/
+def mulL (p q : Ratio) : Int := cfN p (cdPer p q)
+def mulR (p q : Ratio) : Int := cfN q (cdPer p q)
+
+/-- the static context of a binary operator: both conversion factors have denominator 1 -/
+def pairK (a b : DurTy) : PairCtx :=
+  ⟨cdTy a b, ⟨(cdTy a b).rep, imax, ⟨mulL a.per b.per, 1⟩⟩, ⟨(cdTy a b).rep, imax, ⟨mulR a.per b.per, 1⟩⟩⟩
+
+theorem pairCtx_eq (a b : DurTy) (ha : RepOk a.rep) (hb : RepOk b.rep) (hpa : PerOk a.per) (hpb : PerOk b.per)
+    (hc : CommonOk a.per b.per) : pairCtx a b = .ok (pairK a b) := by
+  obtain ⟨hl, hda, hdb⟩ := hc
+  obtain ⟨hcd, dva, dvb⟩ := cdPer_facts a.per b.per hpa hpb hl
+  have hrep := (common_repOk ha hb).1
+  unfold pairCtx
+  rw [commonTy_eq a b hpa hpb hl]
+  simp only [bind, Except.bind]
+  rw [castCtx_eq (cdTy a b) a hrep ha hpa hcd hda, castCtx_eq (cdTy a b) b hrep hb hpb hcd hdb]
+  simp only
+  have e1 : cfD a.per (cdTy a b).per = 1 := cfD_one_of_dvd _ _ hpa hcd dva
+  have e2 : cfD b.per (cdTy a b).per = 1 := cfD_one_of_dvd _ _ hpb hcd dvb
+  rw [e1, e2]
+  rfl
+
+/-- the multipliers as rational numbers: `p / common period` -/
+theorem mul_rat (p q : Ratio) (hp : PerOk p) (hq : PerOk q) (hl : ((Int.lcm p.den q.den : Nat) : Int) ≤ imax.max) :
+    (mulL p q : ℚ) * (cdPer p q).toRat = p.toRat ∧ (mulR p q : ℚ) * (cdPer p q).toRat = q.toRat ∧
+      0 < (cdPer p q).toRat ∧ 0 < mulL p q ∧ 0 < mulR p q ∧
+      mulL p q ≤ p.num * (cdPer p q).den ∧ mulR p q ≤ q.num * (cdPer p q).den := by
+  obtain ⟨hcd, dva, dvb⟩ := cdPer_facts p q hp hq hl
+  have e1 := cfD_one_of_dvd _ _ hp hcd dva
+  have e2 := cfD_one_of_dvd _ _ hq hcd dvb
+  have r1 := cf_rat p (cdPer p q) hp hcd
+  have r2 := cf_rat q (cdPer p q) hq hcd
+  obtain ⟨n1, _, b1, _, _⟩ := cf_facts p (cdPer p q) hp hcd
+  obtain ⟨n2, _, b2, _, _⟩ := cf_facts q (cdPer p q) hq hcd
+  rw [e1] at r1
+  rw [e2] at r2
+  have hpos : 0 < (cdPer p q).toRat := by
+    unfold Ratio.toRat
+    exact div_pos (by exact_mod_cast hcd.1) (by exact_mod_cast hcd.2.1)
+  have hne : (cdPer p q).toRat ≠ 0 := ne_of_gt hpos
+  unfold mulL mulR
+  refine ⟨?_, ?_, hpos, n1, n2, b1, b2⟩
+  · have : (cfN p (cdPer p q) : ℚ) = p.toRat / (cdPer p q).toRat := by simpa using r1
+    rw [this]; field_simp
+  · have : (cfN q (cdPer p q) : ℚ) = q.toRat / (cdPer p q).toRat := by simpa using r2
+    rw [this]; field_simp
+
+/-- the converting constructor into the common type: multiplication by the integer factor -/
+theorem convertCore_eq (rep : ITy) (hrep : RepOk rep) (m : Int) (hm : 0 < m) (hm' : m ≤ imax.max)
+    (x : Int) (hx : imax.inR x = true) (hxm : rep.inR (x * m) = true) :
+    convertCore ⟨rep, imax, ⟨m, 1⟩⟩ x = .ok (x * m) := by
+  have hmm := imax_max
+  have cm : imax.conv m = m := imax_conv ((imax_inR m).mpr (by omega))
+  have c1 : imax.conv 1 = 1 := by decide
+  have hxm' := repOk_sub hrep _ hxm
+  unfold convertCore
+  simp only [bne_self_eq_false, Bool.false_eq_true, if_false, imax_conv hx, cm, c1]
+  rw [imax_arith hxm']
+  simp only [bind, Except.bind]
+  rw [cdiv_pos _ _ _ (by decide), tdiv_one]
+  simp only [conv_of_inR _ (repOk_w hrep) _ hxm]
+
+/-- static preconditions of a binary operator on `duration<…> a`, `duration<…> b` -/
+def PairTyOk (a b : DurTy) : Prop :=
+  RepOk a.rep ∧ RepOk b.rep ∧ PerOk a.per ∧ PerOk b.per ∧ CommonOk a.per b.per
+instance (a b : DurTy) : Decidable (PairTyOk a b) := by unfold PairTyOk; infer_instance
+
+/-- run-time precondition: both counts are values of their representation and representable in the common type -/
+def PairIn (a b : DurTy) (x y : Int) : Prop :=
+  a.rep.inR x = true ∧ b.rep.inR y = true ∧ (cdTy a b).rep.inR (x * mulL a.per b.per) = true ∧
+    (cdTy a b).rep.inR (y * mulR a.per b.per) = true
+instance (a b : DurTy) (x y : Int) : Decidable (PairIn a b x y) := by unfold PairIn; infer_instance
+
+theorem cd_repOk {a b : DurTy} (h : PairTyOk a b) : RepOk (cdTy a b).rep := (common_repOk h.1 h.2.1).1
+
+theorem both_common (a b : DurTy) (h : PairTyOk a b) (x y : Int) (hin : PairIn a b x y) :
+    convertCore (pairK a b).ka x = .ok (x * mulL a.per b.per) ∧
+    convertCore (pairK a b).kb y = .ok (y * mulR a.per b.per) := by
+  have hcd := cd_repOk h
+  obtain ⟨ha, hb, hpa, hpb, hl, hda, hdb⟩ := h
+  obtain ⟨hx, hy, hxm, hym⟩ := hin
+  obtain ⟨_, _, _, m1, m2, b1, b2⟩ := mul_rat a.per b.per hpa hpb hl
+  have := hda.1
+  have := hdb.1
+  exact ⟨convertCore_eq _ hcd _ m1 (by omega) x (repOk_sub ha x hx) hxm,
+         convertCore_eq _ hcd _ m2 (by omega) y (repOk_sub hb y hy) hym⟩
+
+theorem mkCD_id (cd : DurTy) (hr : RepOk cd.rep) (s : Int) (hs : cd.rep.inR s = true) : mkCD cd s = s := by
+  unfold mkCD; rw [conv_of_inR _ (repOk_w hr) _ hs, conv_of_inR _ (repOk_w hr) _ hs]
 
 end Tetl.C12
